@@ -829,4 +829,60 @@ is accepted. -/
 example : decodeRelation ⟨72, 24, 2 ^ 24⟩ [0xfd, 0, 0, 0, 0, 0, 0, 0, 0x10] = .error .irLimit ∧
     (decodeRelation ⟨72, 24, 2 ^ 24⟩ [0]).isOk = true := by decide +kernel
 
+/-! ## Round trips -/
+
+/-- `decode_encode` (RawBytes points) — what `write` produces for a point with canonical
+coordinates on the curve reads back to the same point: honest keys survive the checks. -/
+theorem decode_encode_uncompressed (x y : Nat) (hx : x < fpP) (hy : y < fpP) (hx0 : x ≠ 0)
+    (hc : onCurveG1 x y = true) : decodeG1u (encodeG1u (.aff x y)) = .ok (.aff x y) := by
+  obtain ⟨b, t, hbt, hb, htl⟩ := natToBe48_head_lt x hx
+  have h256x : x < 256 ^ 48 := Nat.lt_trans hx (by decide)
+  have h256y : y < 256 ^ 48 := Nat.lt_trans hy (by decide)
+  have hlen : (natToBe 48 x ++ natToBe 48 y).length = 96 := by simp [natToBe_length]
+  have htake : (natToBe 48 x ++ natToBe 48 y).take 48 = natToBe 48 x := by
+    rw [List.take_append_of_le_length (by simp [natToBe_length])]
+    exact List.take_of_length_le (by simp [natToBe_length])
+  have hdrop : (natToBe 48 x ++ natToBe 48 y).drop 48 = natToBe 48 y := by
+    have := List.drop_left (l₁ := natToBe 48 x) (l₂ := natToBe 48 y)
+    rw [natToBe_length] at this
+    exact this
+  have h1 : ¬ (b / 128 % 2 = 1) := by omega
+  have h2 : b / 32 = 0 := by omega
+  have nx : ¬ (x ≥ fpP) := by omega
+  have ny : ¬ (y ≥ fpP) := by omega
+  have hd : deserializeG1 (natToBe 48 x ++ natToBe 48 y) = .ok (.aff x y) := by
+    unfold deserializeG1
+    rw [htake, hdrop, beToNat_natToBe 48 x h256x, beToNat_natToBe 48 y h256y, hbt]
+    simp [h2, nx, ny, hc, hx0]
+  unfold decodeG1u encodeG1u
+  simp only [hlen, ne_eq, not_true_eq_false, if_false, hd]
+  rw [hbt]
+  simp [h1, hc]
+
+example :
+    let gx := 0x17f1d3a73197d7942695638c4fa9ac0fc3688c4f9774b905a14e3a3f171bac586c55e83ff97a1aeffb3af00adb22c6bb
+    let gy := 0x08b3f481e3aaa0f1a09e30ed741d8ae4fcf5e095d5d00af600db18cb2c04b3edd03cc744a2888ae40caa232946c5e7e1
+    gx < fpP ∧ gy < fpP ∧ gx ≠ 0 ∧ onCurveG1 gx gy = true := by decide +kernel
+
+/-- `decode_encode` (architecture) — `ZkStdLibArch::read` inverts `ZkStdLibArch::write` for every
+architecture `ZkStdLib::configure` accepts, and hands back the bytes that follow. -/
+theorem arch_decode_encode (c : ColConsts) (a : Arch) (rest : Bytes) (h : a.nrPow2rangeCols < pow2Bound c) :
+    decodeArch c (encodeArch a ++ rest) = .ok (a, rest) := by
+  have hr : readN 4 (encodeArch a ++ rest) =
+      .ok (natToLeBytes 4 zkStdVersion, a.bools.map (fun b => if b then 1 else 0) ++ ([a.nrPow2rangeCols] ++ rest)) := by
+    have := readN_append (natToLeBytes 4 zkStdVersion) (a.bools.map (fun b => if b then 1 else 0) ++ ([a.nrPow2rangeCols] ++ rest))
+    rw [natToLeBytes_length] at this
+    simpa [encodeArch, List.append_assoc] using this
+  have hv : leBytesToNat (natToLeBytes 4 zkStdVersion) = zkStdVersion := leToNat_natToLe 4 _ (by decide)
+  have hb := decodeBools_encode a.bools ([a.nrPow2rangeCols] ++ rest)
+  have hl : a.bools.length = 11 := rfl
+  rw [hl] at hb
+  have ha : Arch.ofBools a.bools a.nrPow2rangeCols = a := by cases a; rfl
+  unfold decodeArch
+  simp only [hr, hv, ne_eq, not_true_eq_false, if_false, hb]
+  simp [Nat.not_le.mpr h, ha]
+
+example : decodeArch (ColConsts.ofList [5]) (encodeArch (Arch.ofBools [true, false, true] 4) ++ [9, 9]) =
+    .ok (Arch.ofBools [true, false, true] 4, [9, 9]) := by decide
+
 end MidnightZK.C16
